@@ -106,10 +106,10 @@ func (d tthDec) V(withRL bool) V {
 		rl = 0
 	}
 	if d.st != 0 {
-		return Ls(I(d.st), I(d.ec), I(0), I(0), I(0), Ls(), Ls(), I(0), I(0), I(rl))
+		return Ls(I(d.st), I(d.ec), I(0), I(0), I(0), Ls(), Ls(), I(0), I(0), I(rl), I(0), I(0))
 	}
 	return Ls(I(0), I(0), I(int(d.p.Flags)), I(int(d.p.SeqID)), I(int(d.p.ProtocolID)), Ls(im...), Ls(sm...),
-		I(d.p.HeaderLen), I(d.p.PayloadLen), I(rl))
+		I(d.p.HeaderLen), I(d.p.PayloadLen), I(rl), Bo(d.p.IntInfo == nil), Bo(d.p.StrInfo == nil))
 }
 
 // tthDecodeAll decodes frame three ways; returns (dec, sameFromBytes, sameStream).
